@@ -73,6 +73,11 @@ def whereNZ (mask : List Int) : List Int := whereNZAux 0 mask
 def vadd (a b : List Int) : List Int := List.zipWith (· + ·) a b
 def vsub (a b : List Int) : List Int := List.zipWith (· - ·) a b
 
+/-- `max(a)` of a non-empty array (the translator flags the empty one) -/
+def maxArr : List Int → Int
+  | [] => 0
+  | x :: xs => xs.foldl max x
+
 /-- truthiness of an integer (`while possible_steps:`) -/
 def truthy (x : Int) : Bool := x != 0
 
